@@ -634,6 +634,7 @@ def NumsOK (st : State) : Prop := (st.prs.map (·.number)).Nodup
 theorem step_numsOK (fix : Bool) (st : State) (e : Event) (hw : e.wf) (h : NumsOK st) : NumsOK (step fix st e).1 := by
   cases e with
   | flag f => cases f <;> exact h
+  | batchFailed => exact h
   | githubFailed => exact h
   | github s => unfold NumsOK step; simp only; rw [(evGithub_props st s).2.1]; exact hw
   | batch => unfold NumsOK step; simp only; rw [(evBatch_numbers fix st).1]; exact h
@@ -692,6 +693,7 @@ theorem invQ_step {Q : PR → List BatchRec → Prop} (fix : Bool) (hQ : GoodQ Q
     (st : State) (e : Event) (hi : InvQ Q st) : InvQ Q (step fix st e).1 := by
   cases e with
   | flag f => cases f <;> exact hi
+  | batchFailed => exact hi
   | githubFailed => exact hi
   | github s => exact invQ_refines hQ (evGithub_props st s).1 hi
   | heal a => exact invQ_refines hQ (evHeal_props st a).1 hi
